@@ -342,8 +342,10 @@ void exec_step(const J &st, int incb) {
     std::string kname = name;
     for (auto &c : kname) c = (char)tolower((unsigned char)c);
     if (!kname.empty() && kname.back() == '.') kname.pop_back();
-    ev("{\"e\":\"call\",\"api\":\"%s\",\"t\":%d,\"name\":%s,\"kname\":%s,\"qt\":%d,\"rd\":%d,\"cd\":%d,\"now\":%lld,\"depth\":%d,\"incb\":%d}", op.c_str(), tok->id,
-       jstr(name).c_str(), jstr(kname).c_str(), (int)qt, (int)(st["nord"].num() ? 0 : 1), (int)(st["cd"].num() ? 1 : 0), g_now_ms, g_depth, incb);
+    int dots = 0;
+    for (char c : name) if (c == '.') dots++;
+    ev("{\"e\":\"call\",\"api\":\"%s\",\"t\":%d,\"dots\":%d,\"enddot\":%d,\"wname\":%s,\"name\":%s,\"kname\":%s,\"qt\":%d,\"rd\":%d,\"cd\":%d,\"now\":%lld,\"depth\":%d,\"incb\":%d}", op.c_str(), tok->id,
+       dots, (!name.empty() && name.back() == '.') ? 1 : 0, jstr((!name.empty() && name.back() == '.') ? name.substr(0, name.size() - 1) : name).c_str(), jstr(name).c_str(), jstr(kname).c_str(), (int)qt, (int)(st["nord"].num() ? 0 : 1), (int)(st["cd"].num() ? 1 : 0), g_now_ms, g_depth, incb);
     g_depth++;
     int rc = -1;
     unsigned short qid = 0;
@@ -388,8 +390,10 @@ void exec_step(const J &st, int incb) {
     hints.ai_flags    = (int)st["flags"].num(g_cfg["gaiflags"].num(ARES_AI_NOSORT));
     hints.ai_socktype = SOCK_STREAM;
     std::string service = st["service"].str("");
-    ev("{\"e\":\"call\",\"api\":\"gai\",\"t\":%d,\"name\":%s,\"family\":%d,\"flags\":%d,\"service\":%s,\"now\":%lld,\"depth\":%d,\"incb\":%d}",
-       tok->id, jstr(name).c_str(), fam, hints.ai_flags, jstr(service).c_str(), g_now_ms, g_depth, incb);
+    int dots = 0;
+    for (char c : name) if (c == '.') dots++;
+    ev("{\"e\":\"call\",\"api\":\"gai\",\"t\":%d,\"dots\":%d,\"enddot\":%d,\"wname\":%s,\"name\":%s,\"family\":%d,\"flags\":%d,\"service\":%s,\"now\":%lld,\"depth\":%d,\"incb\":%d}",
+       tok->id, dots, (!name.empty() && name.back() == '.') ? 1 : 0, jstr((!name.empty() && name.back() == '.') ? name.substr(0, name.size() - 1) : name).c_str(), jstr(name).c_str(), fam, hints.ai_flags, jstr(service).c_str(), g_now_ms, g_depth, incb);
     g_depth++;
     ares_getaddrinfo(g_channel, name.c_str(), service.empty() ? nullptr : service.c_str(), &hints, addrinfo_cb, tok);
     g_depth--;
@@ -397,8 +401,10 @@ void exec_step(const J &st, int incb) {
   } else if (op == "ghbn") {
     Tok *tok = new_tok(st, "ghbn");
     int  fam = (int)st["family"].num(4);
-    ev("{\"e\":\"call\",\"api\":\"ghbn\",\"t\":%d,\"name\":%s,\"family\":%d,\"now\":%lld,\"depth\":%d,\"incb\":%d}", tok->id,
-       jstr(name).c_str(), fam, g_now_ms, g_depth, incb);
+    int dots = 0;
+    for (char c : name) if (c == '.') dots++;
+    ev("{\"e\":\"call\",\"api\":\"ghbn\",\"t\":%d,\"dots\":%d,\"enddot\":%d,\"wname\":%s,\"name\":%s,\"family\":%d,\"now\":%lld,\"depth\":%d,\"incb\":%d}", tok->id,
+       dots, (!name.empty() && name.back() == '.') ? 1 : 0, jstr((!name.empty() && name.back() == '.') ? name.substr(0, name.size() - 1) : name).c_str(), jstr(name).c_str(), fam, g_now_ms, g_depth, incb);
     g_depth++;
     ares_gethostbyname(g_channel, name.c_str(), fam == 4 ? AF_INET : (fam == 6 ? AF_INET6 : AF_UNSPEC), host_cb, tok);
     g_depth--;
@@ -516,9 +522,34 @@ void exec_step(const J &st, int incb) {
       for (auto &kv : g_socks) if (kv.second.open && kv.second.tcp) fd = kv.first;
     }
     auto it = g_socks.find(fd);
-    if (it == g_socks.end()) { g_cfg.o["wscript_default"] = st["script"]; return; }
+    if (it == g_socks.end() || st["default"].num()) {
+      g_wscript_default.clear();
+      for (auto &x : st["script"].a) g_wscript_default.push_back((int)x.num());
+      return;
+    }
     for (auto &x : st["script"].a) it->second.wscript.push_back((int)x.num());
     return;
+  } else if (op == "splitat") {  // first read of the latest open TCP socket returns at most `at` bytes
+    for (auto it = g_socks.rbegin(); it != g_socks.rend(); ++it)
+      if (it->second.open && it->second.tcp) { it->second.chunks.push_back((int)st["at"].num(1)); break; }
+    return;
+  } else if (op == "chunking") {
+    g_chunk = (int)st["size"].num(0);
+    return;
+  } else if (op == "drain") {
+    // keep reporting readable/writable sockets until a round causes no socket I/O (bounded)
+    for (int i = 0; i < (int)st["max"].num(300); i++) {
+      long before = g_io_events;
+      std::vector<int> r = fdlist(J(), true), w;
+      J all; all.t = J::STR; all.s = "all";
+      r = fdlist(all, true);
+      w = fdlist(all, false);
+      if (r.empty() && w.empty()) break;
+      do_process(r, w, "fds");
+      bool pending = false;
+      for (auto &kv : g_socks) if (kv.second.open && (!kv.second.instream.empty() || !kv.second.inq.empty())) pending = true;
+      if (g_io_events == before || (!pending && i > 2 && g_io_events - before <= (long)r.size())) break;
+    }
   } else if (op == "srcip") {
     g_srcip = (int)st["ip"].num(1);
     return;
@@ -595,7 +626,9 @@ void run_history(const J &hist) {
   opts.flags = flags; optmask |= ARES_OPT_FLAGS;
   opts.timeout = (int)g_cfg["timeout"].num(2000); optmask |= ARES_OPT_TIMEOUTMS;
   opts.tries = (int)g_cfg["tries"].num(3); optmask |= ARES_OPT_TRIES;
-  opts.ndots = (int)g_cfg["ndots"].num(1); optmask |= ARES_OPT_NDOTS;
+  bool viafile = g_cfg["viafile"].num() != 0;   // ndots and the search list come from a resolv.conf, not from options
+  opts.ndots = (int)g_cfg["ndots"].num(1);
+  if (!viafile) optmask |= ARES_OPT_NDOTS;
   if (g_cfg.has("maxtimeout")) { opts.maxtimeout = (int)g_cfg["maxtimeout"].num(); optmask |= ARES_OPT_MAXTIMEOUTMS; }
   if (g_cfg.has("udpmax")) { opts.udp_max_queries = (int)g_cfg["udpmax"].num(); optmask |= ARES_OPT_UDP_MAX_QUERIES; }
   opts.qcache_max_ttl = (unsigned int)g_cfg["qcache"].num(0); optmask |= ARES_OPT_QUERY_CACHE;
@@ -606,10 +639,25 @@ void run_history(const J &hist) {
   for (auto &d : g_cfg["domains"].a) domstore.push_back(d.str());
   for (auto &d : domstore) doms.push_back((char *)d.c_str());
   opts.domains = doms.empty() ? nullptr : doms.data();
-  opts.ndomains = (int)doms.size(); optmask |= ARES_OPT_DOMAINS;
+  opts.ndomains = (int)doms.size();
+  if (!viafile) optmask |= ARES_OPT_DOMAINS;
   std::string lookups = g_cfg["lookups"].str("b");
   opts.lookups = (char *)lookups.c_str(); optmask |= ARES_OPT_LOOKUPS;
   std::string resolv = g_cfg["resolvconf"].str("/dev/null");
+  if (viafile) {
+    const char *td = getenv("VERIF_TMP");
+    resolv = std::string(td ? td : "/tmp") + "/sim_resolv." + std::to_string((long)getpid()) + ".conf";
+    FILE *rf = fopen(resolv.c_str(), "w");
+    if (rf) {
+      if (!domstore.empty()) {
+        fprintf(rf, "search");
+        for (auto &d : domstore) fprintf(rf, " %s", d.c_str());
+        fprintf(rf, "\n");
+      }
+      fprintf(rf, "options ndots:%d\n", opts.ndots);
+      fclose(rf);
+    }
+  }
   opts.resolvconf_path = (char *)resolv.c_str(); optmask |= ARES_OPT_RESOLVCONF;
   std::string hosts = g_cfg["hosts"].str("/dev/null");
   opts.hosts_path = (char *)hosts.c_str(); optmask |= ARES_OPT_HOSTS_FILE;
@@ -620,6 +668,7 @@ void run_history(const J &hist) {
   }
   opts.sock_state_cb = sock_state_cb; optmask |= ARES_OPT_SOCK_STATE_CB;
   int rc = ares_init_options(&g_channel, &opts, optmask);
+  if (viafile) unlink(resolv.c_str());
   if (rc != ARES_SUCCESS) {
     ev("{\"e\":\"initfail\",\"rc\":\"%s\"}", stname(rc));
     g_channel = nullptr;
